@@ -282,7 +282,7 @@ def gen_dense(rnd, present, nmax, force_pairs=False, force_cls=None):
         M, lam = structured_matrix(rnd, g, cls, n)
         cplx = np.iscomplexobj(M)
         dt = ("complex64" if f32 else "complex128") if cplx else ("float32" if f32 else "float64")
-        wrap = rnd.choice(["Dense", "Dense", "Dense", "Sum2", "Prod2", "Kron1", "Transp"])
+        wrap = rnd.choice(["Dense", "Dense", "Dense", "Sum2", "Prod2", "Kron1", "Transp", "ShiftS", "ShiftP", "ShiftS"])
         return dict(kind="dense", cls=cls, n=n, dt=dt, M=M.astype(getattr(np, dt)), lam=lam, sa=False, wrap=wrap, seed=rnd.getrandbits(30))
     if cls in ("sa_def", "sa_indef", "sa_cplx"):
         lam = np.array(L.separated(rnd, n, signs=(cls != "sa_def")))
@@ -324,7 +324,7 @@ def gen_dense(rnd, present, nmax, force_pairs=False, force_cls=None):
         M = M.real
     dt = ("complex64" if f32 else "complex128") if cplx else ("float32" if f32 else "float64")
     M = M.astype(getattr(np, dt))
-    wrap = rnd.choice(["Dense", "Dense", "Dense", "Sum2", "Prod2", "Kron1", "Transp"])
+    wrap = rnd.choice(["Dense", "Dense", "Dense", "Sum2", "Prod2", "Kron1", "Transp", "ShiftS", "ShiftP", "ShiftS"])
     return dict(kind="dense", cls=cls, n=n, dt=dt, M=M, lam=lam, sa=sa, wrap=wrap, seed=rnd.getrandbits(30))
 
 
@@ -345,6 +345,18 @@ def dense_op(c):
     elif w == "Prod2":
         P = np.eye(n, dtype=M.dtype)[g.permutation(n)]
         A = ops.Dense(M @ P.T) @ ops.Dense(P)
+    elif w in ("ShiftS", "ShiftP"):
+        # lazily shifted operator B + mu I (mu of either sign; complex for complex operators): the magnitudes of B's spectrum are
+        # ordered differently from those of the sum
+        scale = float(np.abs(M).max()) or 1.0
+        mu = float(g.choice([-1, 1])) * scale * float(g.uniform(0.3, 1.5))
+        cp = np.iscomplexobj(M)
+        if cp and not c["sa"] and g.random() < 0.5:
+            mu = mu * np.exp(1j * g.uniform(-3, 3))
+        mu = M.dtype.type(mu)
+        B = ops.Dense(M - mu * np.eye(n, dtype=M.dtype))
+        shift = ops.ScalarMul(mu, (n, n), M.dtype.type) if w == "ShiftS" else mu * ops.Identity((n, n), M.dtype.type)
+        A = B + shift
     elif w == "Kron1":
         A = ops.Kronecker(ops.Dense(np.array([[2.]], dtype=M.dtype)), ops.Dense(M / 2))
     else:
